@@ -231,7 +231,8 @@ func genURI(r *gen.Rand) Input {
 			in.U = append(in.U[:p:p], append(ascii(badSequences[r.Intn(len(badSequences))]), in.U[p:]...)...)
 		case 6: // %uXXXX form
 			c := r.Range(0, 0xFFFF)
-			in.U = append(in.U[:p:p], append(ascii(fmt.Sprintf("%%u%04X", c)), in.U[p:]...)...)
+			form := []string{"%%u%04X", "%%u%04x", "%%U%04X", "%%u%03X"}[r.Intn(4)] // only a lower-case u followed by four digits is an escape
+			in.U = append(in.U[:p:p], append(ascii(fmt.Sprintf(form, c)), in.U[p:]...)...)
 		case 7: // raw non-ASCII next to escapes
 			in.U = append(in.U[:p:p], append([]uint16{[]uint16{0xE9, 0x20AC, 0xFFFD, 0x80}[r.Intn(4)]}, in.U[p:]...)...)
 		}
